@@ -56,9 +56,16 @@ PROP = {
              "are equal to a shorter one and skipped), each run in modes eager/lazy (handlers call Accept at once / only "
              "after the schedule) x plain/settled (main loop blocked before the first registration) and in two burst "
              "modes without quiescence between operations; verdict at synctest quiescence, then again after teardown. "
+             "Besides 'exactly one of delivered/closed' two delivery obligations are judged: a connection may be closed by the "
+             "mux only as the fallback - if a sub-listener of its protocol was returned by Listen* on the same mux before the "
+             "connection was made, was never closed, has its handler in Accept and the mux is still up at quiescence, the "
+             "connection must have been delivered (all modes, also mux-stress); and (where every Listen* starts from a "
+             "quiescent point: non-burst modes, mux-bytes, mux-e2e, H6) a sub-listener the application has not closed must "
+             "not see its mux shut down or its Accept fail. "
              "mux-handover / mux-relisten: gated schedules H1..H4 (hand-over pending at Close; Accept return delayed over "
              "the mux shutdown; first byte after Close, optionally after re-registration; re-registration inside the "
-             "shutdown path). mux-bytes: all 256 first-byte values, payloads 0..64 KiB, client chunkings, handler reads with "
+             "shutdown path) and H6 (Close immediately followed by Listen* of the same protocol, the re-registration forced "
+             "ahead of the main loop through the mux's own mutex, with and without the other protocol registered). mux-bytes: all 256 first-byte values, payloads 0..64 KiB, client chunkings, handler reads with "
              "zero-length/1-byte/random buffers. mux-e2e: real socks5.Server and http.Server behind the mux, whole sessions "
              "pipelined in one stream. mux-stress: 5 goroutines (2 register/close loops, 3 dialers) with virtual-time jitter "
              "under -race. mux-tcp: random operation sequences through the real muxManager on 127.0.0.1:0. "
